@@ -45,11 +45,11 @@ type vPhaseScript struct {
 }
 
 type vPhaseDouble struct {
-	os       *adapters.ObjectSetAdapter
-	scripts  map[string]*vPhaseScript
-	calls    []string // "reconcile:p0", "teardown:p1", ...
-	tdDone   map[string]bool
-	tdErr    map[string]bool
+	os      *adapters.ObjectSetAdapter
+	scripts map[string]*vPhaseScript
+	calls   []string // "reconcile:p0", "teardown:p1", ...
+	tdDone  map[string]bool
+	tdErr   map[string]bool
 }
 
 func vObj(name string) *unstructured.Unstructured {
@@ -153,7 +153,9 @@ func vDrawCondition(conds *[]metav1.Condition, typ string, label string) (presen
 
 func vNewPhasesReconciler(d *vPhaseDouble) *objectSetPhasesReconciler {
 	r := newObjectSetPhasesReconciler(vScheme(), d, &vRemoteDouble{d},
-		func(context.Context, controllers.PreviousOwner) ([]controllers.PreviousObjectSet, error) { return nil, nil },
+		func(context.Context, controllers.PreviousOwner) ([]controllers.PreviousObjectSet, error) {
+			return nil, nil
+		},
 		preflight.PhasesCheckerList{preflight.NewObjectDuplicate()})
 	r.ownerStrategy = ownerhandling.NewNative(r.scheme)
 	return r
